@@ -97,6 +97,11 @@ SCENARIOS = [
      ' var later = [71..-90, 72..-90, 73..-90, 74..-90, 75..-90, 76..-90, 77..-90, 78..-90, 79..-90]; return i; });\n'
      'var got = []; for v in seen { got.push(v); if got.len() >= 12 { break; } } print(got);',
      ["[0, 1, 2]", "[3, 2, 1]"]),
+    ("errors-as-data-are-ordinary-elements",
+     'var items = [1, Error.new("bad"), 3]; try { var z = nil + 1; } catch e { items.push(e); }\nfn describe(v) { if type(v) == Num { return "ok"; } return "failed"; }\n'
+     'print(items.iter().map(describe).collect()); print(items.iter().map(describe).map(|s| s + "!").collect()); print(items.iter().map(describe).filter(|s| s == "failed").collect());\n'
+     'print(items.iter().map(|r| 1).reduce(|a, b| a + b, 0)); var n = 0; for x in items { n = n + 1; } print(n); print(items.iter().filter(|v| type(v) != Num).map(|v| v.derives(Error)).collect());',
+     ["[ok, failed, ok, failed]", "[ok!, failed!, ok!, failed!]", "[failed, failed]", "4", "4", "[true, true]"]),
     ("iterating-a-non-iterable-is-an-error",
      'try { for x in 5 { print("no"); } } catch e { print(type(e) == AttributeError); }\ntry { for x in nil { print("no"); } } catch e { print(type(e) == AttributeError); }',
      ["true", "true"]),
